@@ -35,7 +35,9 @@ Section WP.
                          (k_dh (ke CS) (k1_client_e_pk (cq_ke1 rq)) (kp_sk (ss_keypair setup)))
                          (k_dh (ke CS) (ru_client_s_pk file) se)
                          (h_hash (hash CS) pre) = Ok (sk, km2, km3, hs) /\
-      k2_mac (cr_ke2 resp) = h_hmac (hash CS) km2 (h_hash (hash CS) pre).
+      k2_mac (cr_ke2 resp) = h_hmac (hash CS) km2 (h_hash (hash CS) pre) /\
+      sl_session_key slog = sk /\ sl_km3 slog = km3 /\
+      sl_hashed_transcript slog = h_hash (hash CS) (pre ++ k2_mac (cr_ke2 resp)).
   Proof.
     unfold server_login_start. cbn [bind private_key_ops s_pub]. intros H.
     destruct (length tape <? KE_NONCE_LEN); [discriminate|].
@@ -153,7 +155,7 @@ Section WP.
     destruct ekp as [cepk ce]. cbn [kp_pk kp_sk] in *. subst cepk.
     (* what the server did *)
     apply server_login_start_inv in Hss
-      as (se & u & s & pre & sk & km2 & km3 & hs & k' & Hsev & Hsepk & Hids & Hk' & _ & Hevr & Hpre & Hkeys & Hmac).
+      as (se & u & s & pre & sk & km2 & km3 & hs & k' & Hsev & Hsepk & Hids & Hk' & _ & Hevr & Hpre & Hkeys & Hmac & _).
     unfold server_registration_finish in *. cbn [ru_client_s_pk cq_blinded cq_ke1 k1_client_e_pk ss_oprf_seed ss_keypair kp_sk] in *.
     rewrite Hk in Hk'. injection Hk' as <-.
     (* what the client checked *)
